@@ -173,6 +173,30 @@ async def run_codec(ctx) -> None:
                           if r.random() < 0.5 else r.sample(range(len(frames)), len(frames)), list(range(len(frames))))
         legal = {norm(versions["v1"][z]), norm(versions["v2"][z])}
         zone = gwy.tcs.zone_by_idx[z]
+        # first, cleanly: the complete set of one schedule, then the complete set of the next one (each in any order, with repeats):
+        # after each set the zone reports that schedule or none -- never another one (e.g. the one it had before)
+        for ver in ("v1", "v2"):
+            frs = pack_schedule(z, versions[ver][z])
+            tfr = [f"RP --- {CTL} {OTHER} --:------ 0404 {(14 + len(f)) // 2:03d} {z}200008{len(f) // 2:02X}{i:02X}{len(frs):02X}{f}"
+                   for i, f in enumerate(frs, 1)]
+            order = plan.decide(f"clean/{z}/{ver}", lambda r, n=len(tfr): r.sample(range(n), n) + [r.randrange(n) for _ in range(r.choice([0, 0, 2, 5]))],
+                                list(range(len(tfr))))
+            if sorted(set(order)) != list(range(len(tfr))):
+                continue  # (a shrunk plan may have lost part of the set)
+            for ix in order:
+                hub.rx_line(ser, tfr[ix], 0.0)
+                await asyncio.sleep(0.02)
+            try:
+                cur = zone.schedule
+            except Exception as err:  # noqa
+                ctx.violate("C17", "schedule_raised", exc_sig(err), f"zone.schedule raised {type(err).__name__}: {err}")
+                break
+            if cur is not None and norm(cur) != norm(versions[ver][z]):
+                kind = "previous_schedule_kept" if norm(cur) in legal else "different_schedule"
+                ctx.violate("C17", "reassembly", kind, f"zone {z}: after the complete set of reply packets of schedule {ver} (order {order}) "
+                            f"the zone reports another schedule")
+                break
+            ctx.probe("complete_set_adopted" if cur is not None else "complete_set_gives_none")
         assembled = False
         for n, ix in enumerate(seq):
             ver, i, fr = frames[ix % len(frames)]
